@@ -194,6 +194,12 @@ class Program:
         self.fns = facts['functions']
         for fid, f in self.fns.items():
             f['id'] = fid
+            # stable, human-readable function key: plain qualified name + parameter names (no template
+            # arguments, no line numbers), so that overloads are distinguished and instantiations coincide
+            pn = f.get('pparams')
+            if pn is None:
+                pn = [p.get('name') for p in f.get('params', [])]
+            f['key'] = '%s(%s)' % (f['name'], ','.join(x or '_' for x in pn))
         self.records = facts['records']
         self.statics = facts['statics']
         self._by_name = {}
